@@ -393,3 +393,20 @@ def _single_cubic_family(xs, basis, cum, nb, tol):
     # d[:, 1] = c * I1, d[:, 2] = c * I2  for some c per column
     resid = np.abs(d[:, 1] * I2 - d[:, 2] * I1).max() / max(abs(I1), abs(I2), 1e-300)
     return bool(resid <= tol * 10 and np.abs(d[:, 0]).max() <= tol)
+
+# ---- call-order plane (executed by mc/core.py in fresh interpreters, see mc/props/_hist_common.py): the result of
+# a call must not depend on which other calls (other dtype / method / size / options) were made before it
+_HIST_LABELS = [('float32', 'trapz', 0), ('float64', 'trapz', 0), ('float64', 'trapz', 1), ('float64', 'simpson', 1), ('float64', 'cspline', 0), ('float32', 'cspline', 1)]
+HISTORY = {"labels": ["/".join(str(x) for x in c) for c in _HIST_LABELS], "tol": [0.0001, 1e-12, 1e-12, 1e-12, 1e-12, 0.0001],
+           "depth": {"quick": 2, "thorough": 3},
+           "prelude": r'''import torch, xitorch
+from xitorch.integrate import SQuad
+CALLS = %r
+def do(i):
+    dtn, method, grid = CALLS[i]
+    dt = getattr(torch, dtn)
+    x = torch.linspace(0.0, 2.0, 7, dtype=dt) if grid == 0 else torch.tensor([0.0, 0.2, 0.5, 1.1, 1.3, 1.8, 2.0], dtype=dt)
+    y = torch.sin(2.0 * x) + 0.3 * x
+    sq = SQuad(x, method=method)
+    return torch.cat([sq.cumsum(y).reshape(-1), sq.integrate(y).reshape(-1)]).double().tolist()
+''' % (_HIST_LABELS,)}
